@@ -21,8 +21,11 @@ from ..runner import CaseTimeout, time_limit
 from .common import build_both, compare_errors, fl, mpf, mpf_s, net_oracle
 
 PROP = "C10"
-LEAN = {"module": "Pygom.Props.C10",
-        "required": ["Pygom.C10.ode_sum_zero", "Pygom.C10.vmat_col_sum_zero", "Pygom.C10.flow_sum_const",
+LEAN = {"module": "Pygom.Props.C10", "extra_modules": ["Pygom.Props.C10Link"],
+        "required": ["Pygom.C10Link.stoch_path_sum_const", "Pygom.C10Link.stoch_path_sum_const_int",
+                     "Pygom.C10Link.stoch_path_eq_c10_path", "Pygom.C10Link.stoch_path_sum_const_via_c10",
+                     "Pygom.C10Link.stoch_path_sum_const_model",
+                     "Pygom.C10.ode_sum_zero", "Pygom.C10.vmat_col_sum_zero", "Pygom.C10.flow_sum_const",
                      "Pygom.C10.step_sum_const", "Pygom.C10.path_sum_const"]}
 BUDGET = {"quick": {"models": 90, "runs": 2}, "thorough": {"models": 1500, "runs": 4}}
 RULE = ("transition-only models (2-5 states, 1-5 events of 1-3 T transitions, all rate kinds incl. time-periodic; a third with symbolic "
